@@ -4,7 +4,7 @@
 # applied (the confirmation of the change itself was done by tools/seed_eval.sh and is recorded in meta.json).
 # Prints one line per change; exit 1 if some change is not detected.
 cd /verif
-IDS="$@"; [ -n "$IDS" ] || IDS=$(ls seeded | sort)
+IDS="$@"; [ -n "$IDS" ] || IDS=$(ls seeded | grep -- "-" | sort)
 MISSED=0
 for ID in $IDS; do
   PROP=${ID%%-*}; RUN=/tmp/seedrun_$ID
@@ -24,7 +24,7 @@ python3 - <<'PY'
 import sys, importlib
 sys.path.insert(0, '/verif')
 from vlib import core
-for p in sorted({x.split('-')[0] for x in __import__('os').listdir('/verif/seeded')}):
+for p in sorted({x.split('-')[0] for x in __import__('os').listdir('/verif/seeded') if '-' in x}):
     try:
         m = importlib.import_module('checks.' + p.lower())
         if hasattr(m, 'regen'):
